@@ -177,6 +177,20 @@ theorem slice_to_bound_positions (s : Image.PySl) (size : Nat) (b e st : Int)
       bd.positions = (Image.pyRange b e st).map fun (k : Int) => (k : Rat) :=
   sliceToBound_positions s size b e st h
 
+/-- **The request behind `get_sliced_data`** (`ImageLayerState` / `ImageSubsetLayerState`): whatever
+the viewer's slices, the view or the bounds, the buffer is requested from the layer's data in the
+frame of the reference data with `broadcast=False` under the layer's own cache id, and along every
+reference axis the bound samples exactly the positions the call denotes (`Image.Spec.positions`:
+`range(*slice.indices(size))` for a view slice or an `AggregateSlice`, the explicit bounds, the
+viewer's slice index).  With `frb_pointwise` and `cache_sound` this fixes the buffer before the
+aggregation / transposition step (which is tied to the code by the correspondence check only). -/
+theorem sliced_request_denotes (w : World) (l : Image.Layer) (c : Image.Call) (r : Req)
+    (agg : List (Option Image.AggFn)) (h : Image.reqOf w l c = .ok (r, agg)) :
+    r.data = l.data ∧ r.target = l.ref ∧ r.what = l.what ∧ r.broadcast = false ∧ r.cacheId = some 0 ∧
+    r.bounds.length = w.ndim l.ref ∧
+    ∀ i, i < w.ndim l.ref → Image.Spec.positions w l c i = some (r.bounds.getD i (.scalar 0)).positions :=
+  reqOf_denotes w l c r agg h
+
 /-! ## non-vacuity -/
 
 /-- two datasets: a 3×4 reference image and a 4×5 source; source axis 0 ← reference axis 1
